@@ -110,7 +110,9 @@ pub mod sync {
 }
 
 pub mod io {
-    pub trait AsyncReadExt { fn read_exact<'a>(&'a mut self, buf: &'a mut [u8]) -> impl std::future::Future<Output = std::io::Result<usize>> + Send + 'a; }
+    pub trait AsyncReadExt { fn read_exact<'a>(&'a mut self, buf: &'a mut [u8]) -> impl std::future::Future<Output = std::io::Result<usize>> + Send + 'a;
+        /// one read(2): may return fewer bytes than the buffer holds (0 = end of stream), like tokio's
+        fn read<'a>(&'a mut self, buf: &'a mut [u8]) -> impl std::future::Future<Output = std::io::Result<usize>> + Send + 'a; }
     pub trait AsyncWriteExt { fn write_all<'a>(&'a mut self, buf: &'a [u8]) -> impl std::future::Future<Output = std::io::Result<()>> + Send + 'a;
         fn flush<'a>(&'a mut self) -> impl std::future::Future<Output = std::io::Result<()>> + Send + 'a; }
 }
@@ -123,7 +125,8 @@ pub mod net {
         pub fn local_addr(&self) -> std::io::Result<SocketAddr> { self.0.local_addr() } }
     pub struct TcpStream(std::net::TcpStream);
     impl TcpStream { pub async fn connect<A: ToSocketAddrs>(a: A) -> std::io::Result<Self> { Ok(TcpStream(std::net::TcpStream::connect(a)?)) } }
-    impl super::io::AsyncReadExt for TcpStream { fn read_exact<'a>(&'a mut self, buf: &'a mut [u8]) -> impl std::future::Future<Output = std::io::Result<usize>> + Send + 'a { async move { self.0.read_exact(buf)?; Ok(buf.len()) } } }
+    impl super::io::AsyncReadExt for TcpStream { fn read_exact<'a>(&'a mut self, buf: &'a mut [u8]) -> impl std::future::Future<Output = std::io::Result<usize>> + Send + 'a { async move { self.0.read_exact(buf)?; Ok(buf.len()) } }
+        fn read<'a>(&'a mut self, buf: &'a mut [u8]) -> impl std::future::Future<Output = std::io::Result<usize>> + Send + 'a { async move { self.0.read(buf) } } }
     impl super::io::AsyncWriteExt for TcpStream { fn write_all<'a>(&'a mut self, buf: &'a [u8]) -> impl std::future::Future<Output = std::io::Result<()>> + Send + 'a { async move { self.0.write_all(buf) } }
         fn flush<'a>(&'a mut self) -> impl std::future::Future<Output = std::io::Result<()>> + Send + 'a { async move { self.0.flush() } } }
     pub async fn lookup_host<A: ToSocketAddrs>(a: A) -> std::io::Result<impl Iterator<Item = SocketAddr>> { Ok(a.to_socket_addrs()?.collect::<Vec<_>>().into_iter()) }
